@@ -20,6 +20,8 @@
 #include <sys/wait.h>
 #include <unistd.h>
 #include <fcntl.h>
+#include <poll.h>
+#include <sys/stat.h>
 
 namespace tx {
 using namespace SimTK;
@@ -451,7 +453,90 @@ inline int exerciseMutant(const std::string& m, bool fileRoute, bool preserve, c
 // Every sanitizer abort costs seconds (symbolisation); once the parser has been shown to crash a few times in this worker the
 // remaining mutant cases add nothing and are skipped (counted as inconclusive, never as passes).
 static int g_crashBudget = 3;
+// Runs the documents in forked children (a child handles documents until it dies; the parent then attributes the death to the
+// document that was in progress and starts a new child for the rest). Returns false when the crash budget ran out.
+inline bool runHostileDocs(vh::Ctx& c, const std::vector<std::string>& muts, const std::vector<std::string>& hows, const std::vector<char>& viaFile,
+                           bool preserve, int* budget, const char* keyPrefix) {
+    const int NM = (int)muts.size();
+    const std::string path = tmpPath(c, "mut");
+    const bool noFork = c.args.getInt("nofork", 0) != 0;
+    int next = 0; bool withinBudget = true;
+    while (next < NM) {
+        c.setPhase("xml hostile documents (" + hows[next] + (viaFile[next] ? ", file route)" : ", string route)"));
+        fflush(stdout); fflush(stderr);
+        int fds[2]; if (pipe(fds) != 0) { c.skip("pipe-failed"); return true; }
+        pid_t pid = noFork ? -2 : fork();
+        if (pid == -1) { close(fds[0]); close(fds[1]); c.skip("fork-failed"); return true; }
+        if (pid == 0 || noFork) {
+            if (!noFork) close(fds[0]);
+            for (int i = next; i < NM; ++i) {
+                unsigned char msg[1] = {(unsigned char)i};
+                if (write(fds[1], msg, 1) != 1) {}
+                if (!noFork) c.setPhase("xml hostile documents (" + hows[i] + (viaFile[i] ? ", file route)" : ", string route)"));
+                int rc = exerciseMutant(muts[i], viaFile[i] != 0, preserve, path);
+                msg[0] = (unsigned char)(0x80 | rc); if (write(fds[1], msg, 1) != 1) {}
+            }
+            if (!noFork) _exit(0);
+        }
+        close(fds[1]);
+        int current = -1; std::vector<int> outcome(NM, -1);
+        unsigned char b;
+        // parent-side watchdog: no progress for 15 s and no sanitizer report being written by the child => the parser hangs
+        bool hung = false; int quietSeconds = 0;
+        for (;;) {
+            struct pollfd pf = {fds[0], POLLIN, 0};
+            int pr = poll(&pf, 1, 1000);
+            if (pr > 0) { if (read(fds[0], &b, 1) != 1) break; quietSeconds = 0; if (b & 0x80) { if (current >= 0) outcome[current] = b & 0x7F; } else current = b; continue; }
+            if (pr < 0 && errno != EINTR) break;
+            if (++quietSeconds < 15 || noFork) continue;
+            bool reporting = false;   // an ASan report (symbolisation can take long on a loaded machine) is not a hang
+            // (ASan and UBSan share one runtime: the report goes to whichever log_path was parsed last, so look at both)
+            for (const char* var : {"ASAN_OPTIONS", "UBSAN_OPTIONS"})
+                if (const char* ao = getenv(var)) { std::string o = ao; size_t k = o.find("log_path="); if (k != std::string::npos) { std::string lp = o.substr(k + 9); lp = lp.substr(0, lp.find(':')); struct stat st;
+                    if (stat((lp + "." + std::to_string((long)pid)).c_str(), &st) == 0) reporting = true; } }
+            if (reporting && quietSeconds < 300) continue;
+            hung = true; kill(pid, SIGKILL); break;
+        }
+        close(fds[0]);
+        int status = 0; if (!noFork) waitpid(pid, &status, 0);
+        for (int i = next; i < NM; ++i) if (outcome[i] >= 0) {
+            c.cover(std::string(keyPrefix) + ":" + hows[i] + (viaFile[i] ? ":file" : ":string") + (outcome[i] == 0 ? ":parsed" : ":rejected"));
+            c.obs(outcome[i] == 0 ? "hostile-document-parsed" : "hostile-document-rejected-with-exception");
+            // an outcome (parse or exception) without a sanitizer report is what the property asks for
+            c.require(std::string(keyPrefix) + ":outcome", outcome[i] == 0 || outcome[i] == 1, [&] { return Json::obj().set("what", "harness could not run the document").set("rc", outcome[i]); });
+        }
+        if (noFork) break;
+        if (WIFEXITED(status) && WEXITSTATUS(status) == 0) break;     // child finished all remaining documents
+        int crashed = current < next ? next : current;                  // the child died while working on 'current'
+        std::string shown; Json::esc(muts[crashed].substr(0, 1200), shown);
+        const bool hang = hung;
+        c.viol(std::string(keyPrefix) + (hang ? ":parser-hang(15s)" : ":parser-crashed"),
+               Json::obj().set("what", hang ? "the parser did not return within 15 s on a hostile document" : "the parser process died (sanitizer abort or signal) on a hostile document; see the sanitizer report of this case")
+                   .set("mutation", hows[crashed]).set("route", viaFile[crashed] ? "file" : "string").set("white_space_mode", preserve ? "preserve" : "condense").set("wait_status", status)
+                   .set("signal", WIFSIGNALED(status) ? WTERMSIG(status) : 0).set("document_json", shown).set("document_length", (long)muts[crashed].size()));
+        next = crashed + 1;
+        if (budget && --*budget <= 0) { c.obs("hostile-documents-not-run-after-crash-budget", NM - next); withinBudget = false; break; }
+    }
+    unlink(path.c_str());
+    return withinBudget;
+}
+// Pinned hostile documents (found by earlier exploration): run once, by worker 0, outside the crash budget.
+inline void xmlPinnedHostile(vh::Ctx& c) {
+    std::vector<std::string> docs = {
+        "<a b=\"x",                                   // attribute value never closed
+        "<?xml version=\"1.0",                        // declaration attribute never closed
+        "<a><![CDATA[x",                              // CDATA never closed
+        "\xEF\xBB\xBF<a><!--x\xEF",                   // UTF-8 mode, error position bookkeeping meets a lone 0xEF at the end
+        "\xEF\xBB\xBF<a>\xE2\x82",                    // UTF-8 mode, truncated multi-byte character at the end
+        "<a>&#x;&#xFFFFFFFFFFFFFFFFF;&#;</a>",         // degenerate character references
+    };
+    std::vector<std::string> hows = {"pinned:unclosed-attribute", "pinned:unclosed-declaration", "pinned:unclosed-cdata", "pinned:bom-lone-0xEF-at-end", "pinned:bom-truncated-multibyte", "pinned:degenerate-charrefs"};
+    std::vector<char> viaFile(docs.size(), 0);
+    runHostileDocs(c, docs, hows, viaFile, false, nullptr, "xml-pinned");
+}
 inline void xmlMutants(vh::Ctx& c, long idx, vh::Rng& r) {
+    { static bool init = false; if (!init) { init = true; g_crashBudget = (int)c.args.getInt("crashbudget", g_crashBudget); } }
+    if (idx == 0 && c.args.worker == 0) { xmlPinnedHostile(c); return; }
     if (g_crashBudget <= 0) { c.skip("crash-budget-exhausted:parser-already-shown-to-crash"); return; }
     const bool preserve = r.coin(0.25);
     GenOpt go{preserve, r.coin(0.1), true, true};
@@ -462,53 +547,7 @@ inline void xmlMutants(vh::Ctx& c, long idx, vh::Rng& r) {
     const int NM = 24;
     std::vector<std::string> muts(NM), hows(NM); std::vector<char> viaFile(NM);
     for (int i = 0; i < NM; ++i) { muts[i] = mutate(r, base, other, hows[i]); viaFile[i] = r.coin(0.2); }
-    const std::string path = tmpPath(c, "mut");
-    const bool noFork = c.args.getInt("nofork", 0) != 0;
-    int next = 0;
-    while (next < NM) {
-        c.setPhase("xml mutated documents (" + hows[next] + (viaFile[next] ? ", file route)" : ", string route)"));
-        fflush(stdout); fflush(stderr);
-        int fds[2]; if (pipe(fds) != 0) { c.skip("pipe-failed"); return; }
-        pid_t pid = noFork ? -2 : fork();
-        if (pid == -1) { close(fds[0]); close(fds[1]); c.skip("fork-failed"); return; }
-        if (pid == 0 || noFork) {
-            if (!noFork) close(fds[0]);
-            for (int i = next; i < NM; ++i) {
-                unsigned char msg[2] = {(unsigned char)i, 0xFF};
-                if (write(fds[1], msg, 1) != 1) {}
-                if (!noFork) { c.setPhase("xml mutated documents (" + hows[i] + (viaFile[i] ? ", file route)" : ", string route)")); alarm(60); }
-                int rc = exerciseMutant(muts[i], viaFile[i] != 0, preserve, path);
-                msg[0] = (unsigned char)(0x80 | rc); if (write(fds[1], msg, 1) != 1) {}
-            }
-            if (!noFork) _exit(0);
-        }
-        close(fds[1]);
-        // parent: read progress
-        int current = -1; std::vector<int> outcome(NM, -1);
-        unsigned char b;
-        while (read(fds[0], &b, 1) == 1) { if (b & 0x80) { if (current >= 0) outcome[current] = b & 0x7F; } else current = b; }
-        close(fds[0]);
-        int status = 0; if (!noFork) waitpid(pid, &status, 0);
-        for (int i = next; i < NM; ++i) if (outcome[i] >= 0) {
-            c.cover(std::string("xml-mutant:") + hows[i] + (viaFile[i] ? ":file" : ":string") + (outcome[i] == 0 ? ":parsed" : ":rejected"));
-            c.obs(outcome[i] == 0 ? "mutant-parsed" : "mutant-rejected-with-exception");
-            // an outcome (parse or exception) without a sanitizer report is what the property asks for
-            c.require("xml-mutant:outcome", outcome[i] == 0 || outcome[i] == 1, [&] { return Json::obj().set("what", "harness could not run the mutant").set("rc", outcome[i]); });
-        }
-        if (noFork) break;
-        if (WIFEXITED(status) && WEXITSTATUS(status) == 0) break;     // child finished all remaining mutants
-        // the child died while working on 'current'
-        int crashed = current < next ? next : current;
-        std::string shown; Json::esc(muts[crashed].substr(0, 1200), shown);
-        c.viol(std::string(WIFSIGNALED(status) && WTERMSIG(status) == SIGALRM ? "xml-mutant:parser-hang(60s)" : "xml-mutant:parser-crashed"),
-               Json::obj().set("what", "the parser process died (sanitizer abort or signal) on a mutated document; see the sanitizer report of this case")
-                   .set("mutation", hows[crashed]).set("route", viaFile[crashed] ? "file" : "string").set("white_space_mode", preserve ? "preserve" : "condense").set("wait_status", status)
-                   .set("signal", WIFSIGNALED(status) ? WTERMSIG(status) : 0).set("document_json", shown).set("document_length", (long)muts[crashed].size()));
-        next = crashed + 1;
-        if (--g_crashBudget <= 0) { c.obs("mutants-not-run-after-crash-budget", NM - next); break; }
-    }
-    unlink(path.c_str());
-    (void)idx;
+    runHostileDocs(c, muts, hows, viaFile, preserve, &g_crashBudget, "xml-mutant");
 }
 
 } // namespace tx
